@@ -951,15 +951,79 @@ func (k *vCtl) reqReadComment() {
 func (k *vCtl) reqCoupling() {
 	r := k.c.R
 	on := vChance(r, 0.6)
+	errToFB := vChance(r, 0.5)
+	k.coupling(errToFB, on)
+	if k.kind == "lancero" && on && !k.dead && k.gate() == "" && vChance(r, 0.5) {
+		// the same coupling asked for again after one of its pairs was edited by hand: the request means "connect every pair of
+		// this direction, disconnect every pair of the other", whatever was asked for before
+		pair := 2 * r.Intn(k.nchan/2)
+		src, rcv := pair, pair+1
+		if !errToFB {
+			src, rcv = pair+1, pair
+		}
+		gts := GroupTriggerState{Connections: map[int][]int{src: {rcv}}}
+		var okay bool
+		if vChance(r, 0.7) {
+			k.do(fmt.Sprintf("DeleteGroupTriggerCoupling(%v)", gts.Connections), k.queuedWant("ok"), func() error { return k.sc.DeleteGroupTriggerCoupling(&gts, &okay) })
+		} else {
+			gts = GroupTriggerState{Connections: map[int][]int{rcv: {src}}} // a pair of the other direction, added by hand
+			k.do(fmt.Sprintf("AddGroupTriggerCoupling(%v)", gts.Connections), k.queuedWant("ok"), func() error { return k.sc.AddGroupTriggerCoupling(gts, &okay) })
+		}
+		k.c.Cov("couplings_repeated_after_a_manual_edit", 1)
+		k.coupling(errToFB, true)
+	}
+}
+
+// coupling issues one err->FB / FB->err coupling request and compares the connection set in use afterwards (read from inside the
+// core loop) with the set-theoretic result of the request on the set in use before it.
+func (k *vCtl) coupling(errToFB, on bool) {
 	want := "ok"
 	if on && k.kind != "lancero" {
 		want = "err"
 	}
+	before, haveBefore := k.groupState()
 	var okay bool
-	if vChance(r, 0.5) {
-		k.do(fmt.Sprintf("CoupleErrToFB(%v)", on), k.queuedWant(want), func() error { return k.sc.CoupleErrToFB(&on, &okay) })
+	var err error
+	var ret bool
+	if errToFB {
+		err, ret = k.do(fmt.Sprintf("CoupleErrToFB(%v)", on), k.queuedWant(want), func() error { return k.sc.CoupleErrToFB(&on, &okay) })
 	} else {
-		k.do(fmt.Sprintf("CoupleFBToErr(%v)", on), k.queuedWant(want), func() error { return k.sc.CoupleFBToErr(&on, &okay) })
+		err, ret = k.do(fmt.Sprintf("CoupleFBToErr(%v)", on), k.queuedWant(want), func() error { return k.sc.CoupleFBToErr(&on, &okay) })
+	}
+	if !haveBefore || !ret || err != nil || k.dead || k.kind != "lancero" || k.gate() != "" {
+		return
+	}
+	after, ok := k.groupState()
+	if !ok {
+		return
+	}
+	exp := map[[2]int]bool{}
+	for src, rcvs := range before.Connections {
+		for _, rcv := range rcvs {
+			exp[[2]int{src, rcv}] = true
+		}
+	}
+	for i := 0; i+1 < k.nchan; i += 2 {
+		if on && errToFB {
+			exp[[2]int{i, i + 1}] = true
+		} else {
+			delete(exp, [2]int{i, i + 1})
+		}
+		if on && !errToFB {
+			exp[[2]int{i + 1, i}] = true
+		} else {
+			delete(exp, [2]int{i + 1, i})
+		}
+	}
+	want2 := &GroupTriggerState{Connections: map[int][]int{}}
+	for p := range exp {
+		want2.Connections[p[0]] = append(want2.Connections[p[0]], p[1])
+	}
+	k.c.Cov("coupling_set_checks", 1)
+	if vGroupKey(want2) != vGroupKey(after) {
+		k.c.Violate("c09:coupling-set", "the connection set in use was %s; after the coupling request (err->FB %v, on %v) it is %s, the set-theoretic result is %s\nhistory: %v",
+			vGroupKey(before), errToFB, on, vGroupKey(after), vGroupKey(want2), k.hist)
+		k.dead = true
 	}
 }
 
